@@ -418,7 +418,9 @@ func (r *Run) syncReservations() {
 		}
 	}
 	for _, br := range r.API.BindRequests() {
-		if BRTerminallyFailed(br) {
+		// a request still to be processed keeps its groups alive; a processed one does not (the
+		// pod's own labels do)
+		if BRTerminallyFailed(br) || br.Status.Phase == bindv1alpha2.BindRequestPhaseSucceeded {
 			continue
 		}
 		for _, g := range br.Spec.SelectedGPUGroups {
